@@ -143,7 +143,8 @@ def violation (p : Snap) (m : MAct) (sk : Bool) (n : Snap) : Option String :=
     -- connection without its session; what else it must (not) do depends on its ORIGIN, which this
     -- function does not see: `watchViolation` / `violationO` below (extension mqtt, round 2 — before,
     -- this clause demanded `n.reg = none` for every event, i.e. it REQUIRED that the echo of a
-    -- connection's own delDB disconnects the connection that uses the id by now)
+    -- connection's own delDB disconnects the connection that uses the id by now; that outcome of
+    -- the current code is now the known finding with sig `stale-teardown-event:new-connection-disconnected`)
     if !intact n then some "watch:current-conn-broken" else none
   | .par _ _ => if !intact n then some "race:current-conn-broken" else none
 
@@ -153,17 +154,10 @@ def violation (p : Snap) (m : MAct) (sk : Bool) (n : Snap) : Option String :=
 observed `watch` counter only (not from the model): an `admindel` queues an admin-origin event whose
 victim is the connection registered at that moment; a `drop j` (alone or inside `par`) after which
 the counter has grown queues a teardown-origin event of `j` (= `delDB` in `j`'s own teardown); an
-executed `watch` takes the oldest. `owed` mirrors what a broker that merely COUNTS its own deletes
-(`fixes/C16-own-delete-event.patch`) cannot know: an admin-origin event delivered while a
-teardown-origin event is queued behind it uses up that event's slot (`owed + 1`); the
-teardown-origin event is then handled like a foreign one — the known residual
-(`known_findings.d/C16.json`), classified by its own sig. -/
+executed `watch` takes the oldest. -/
 
 structure Track where
   queue : List Origin := []
-  owed : Nat := 0
-
-def countTd (l : List Origin) : Nat := (l.filter Origin.isTeardown).length
 
 /-- the connection whose teardown a macro action contains -/
 def dropOf : MAct → Option Nat
@@ -182,47 +176,34 @@ def liveReg (p : Snap) : Option Nat := if p.regDisc then none else p.reg
 def trackStep (t : Track) (p : Snap) (m : MAct) (sk : Bool) (n : Snap) : Track :=
   if sk then t else
   match m with
-  | .watch =>
-    match t.queue with
-    | [] => t
-    | o :: rest =>
-      let expected := countTd t.queue - t.owed      -- what a counting broker still expects
-      match o with
-      | .admin _ => { queue := rest, owed := if 0 < expected then t.owed + 1 else t.owed }
-      | .teardownOf _ => { queue := rest, owed := if expected = 0 then t.owed - 1 else t.owed }
+  | .watch => { queue := t.queue.tail }
   | _ =>
     let added := n.watch - p.watch
     let o : Origin := match dropOf m with
       | some j => if hasAdminDel m then Origin.admin (liveReg p) else Origin.teardownOf j
       | none => Origin.admin (liveReg p)
-    { t with queue := t.queue ++ List.replicate added o }
+    { queue := t.queue ++ List.replicate added o }
 
-/-- the event the next executed `watch` delivers, and whether a counting broker would take it for
-a foreign one although it is the echo of an own delete (`owed` covers all queued teardown events) -/
+/-- the event the next executed `watch` delivers -/
 def Track.head (t : Track) : Option Origin := t.queue.head?
-def Track.overtaken (t : Track) : Bool := decide (countTd t.queue ≤ t.owed)
 
 /-- C16 on the delivery of one delete event of known origin (`p`, `n`: snapshots before / after).
-* admin-origin: the victim — the connection that was registered when the session was deleted —
-  must not be registered and live afterwards ("deleting a session through the admin endpoint
-  disconnects that client");
+* admin-origin ("deleting a session through the admin endpoint disconnects that client"): nobody is
+  registered for the id afterwards (the judge also checks that the registered connection's Client
+  reports `disconnected()`);
 * teardown-origin (the echo of connection `j`'s own `delDB`): a registered live connection other
   than `j` — one that connected, or took the id over, after `j`'s teardown — keeps its
-  registration, and nothing else changes either. -/
-def watchViolation (o : Option Origin) (overtaken : Bool) (p n : Snap) : Option String :=
+  registration ("the teardown of the superseded connection, whenever it happens, never removes the
+  new connection's … registration"). The CURRENT code breaks this clause
+  (`C16.stale_teardown_event_disconnects_new_connection`, known finding `C16-own-delete-event`). -/
+def watchViolation (o : Option Origin) (p n : Snap) : Option String :=
   match o with
-  | some (.admin (some v)) =>
-    if n.reg == some v && !n.regDisc then some "admin-delete:client-not-disconnected" else none
-  | some (.admin none) => none
+  | some (.admin _) => if n.reg.isSome then some "admin-delete:client-not-disconnected" else none
   | some (.teardownOf j) =>
     match p.reg with
     | some k =>
-      if k != j && !p.regDisc then
-        if n.reg != some k || n.regDisc then
-          some (if overtaken then "stale-teardown-event:after-overtaken-admin-event"
-                else "stale-teardown-event:new-connection-disconnected")
-        else if { n with watch := p.watch } != p then some "stale-teardown-event:state-changed"
-        else none
+      if k != j && !p.regDisc && (n.reg != some k || n.regDisc) then
+        some "stale-teardown-event:new-connection-disconnected"
       else none
     | none => none
   | none => none
@@ -233,7 +214,7 @@ def violationO (t : Track) (p : Snap) (m : MAct) (sk : Bool) (n : Snap) : Option
   | some v => some v
   | none =>
     match m with
-    | .watch => if sk then none else watchViolation t.head t.overtaken p n
+    | .watch => if sk then none else watchViolation t.head p n
     | _ => none
 
 /-! ### macro view of the model with origins -/
